@@ -13,7 +13,8 @@ FA, CM, MG, CR, CS, I_ = ("periodictable/fasta.py", "periodictable/cromermann.py
 MUTANTS = [
     # ---- C01
     ("C01", "fire", F, 'Regex("[1-9][0-9]*")+closeiso', 'Regex("[0-9]+")+closeiso', "isotope regex widened"),
-    ("C01", "silent", F, 'Regex("[1-9][0-9]*")+closeiso', 'Regex("[1-9]\\\\d*")+closeiso', "same language, other spelling"),
+    ("C01", "fire", F, 'Regex("[1-9][0-9]*")+closeiso', 'Regex("[1-9]\\\\d*")+closeiso', "\\d also accepts non-ASCII digits"),
+    ("C01", "silent", F, 'Regex("[1-9][0-9]*")+closeiso', 'Regex("[1-9][0123456789]*")+closeiso', "same language, other spelling"),
     ("C01", "fire", F, "count = Optional(~White()+(fract|whole), default=1)", "count = Optional(~White()+(whole|fract), default=1)", "alternatives reordered"),
     ("C01", "fire", F, "        return (count, symbol)\n", "        return (symbol, count)\n", "pair swapped in convert_element"),
     ("C01", "fire", F, "            total[el] += elcount*count", "            total[el] += elcount+count-1", "count added instead of multiplied"),
